@@ -1026,7 +1026,7 @@ fn rand_bytes(ctx: &mut Ctx, max_len: u64) -> Vec<u8> {
 
 pub fn run(ctx: &mut Ctx) {
     // ---- 1. naturals through the real encoder and back
-    let small = ctx.scale(12_000, 140_000);
+    let small = ctx.scale(65_536, 300_000);
     for n in 1..=small {
         nat_all(ctx, n, false, "small");
     }
@@ -1037,7 +1037,7 @@ pub fn run(ctx: &mut Ctx) {
         }
     }
     let around = ctx.scale(64, 64);
-    let all_ty_within = ctx.scale(2, 64);
+    let all_ty_within = ctx.scale(8, 64);
     for p in 1..=32u32 {
         let b = 1u64 << p;
         for d in 0..=around {
@@ -1057,7 +1057,7 @@ pub fn run(ctx: &mut Ctx) {
         }
     }
     nat_all(ctx, u64::MAX, false, "large-real-encoder");
-    for _ in 0..ctx.scale(300, 5_000) {
+    for _ in 0..ctx.scale(3_000, 30_000) {
         let n = 1 + ctx.rng.below((1u64 << 32) - 1);
         nat_all(ctx, n, false, "random");
     }
@@ -1070,7 +1070,7 @@ pub fn run(ctx: &mut Ctx) {
             large.push((1u128 << p) - 1 - d);
         }
     }
-    for _ in 0..ctx.scale(400, 4_000) {
+    for _ in 0..ctx.scale(2_000, 20_000) {
         large.push((1u128 << 32) + ctx.rng.below(1 << 50) as u128 % ((1u128 << 50) - (1u128 << 32)));
     }
     for p in [64u32, 65, 70, 90, 100] {
@@ -1092,7 +1092,7 @@ pub fn run(ctx: &mut Ctx) {
     }
 
     // ---- 3. arbitrary and mutated strings, every type, bounds, every alignment
-    for it in 0..ctx.scale(12_000, 300_000) {
+    for it in 0..ctx.scale(120_000, 1_000_000) {
         let (bytes, skip) = if it % 2 == 0 {
             (rand_bytes(ctx, 7), ctx.rng.below(9) as usize)
         } else {
@@ -1130,7 +1130,7 @@ pub fn run(ctx: &mut Ctx) {
         do_dec(ctx, ty, bound, skip, &bytes, if it % 2 == 0 { "random-string" } else { "mutated-code" });
     }
     // every string of up to 12 bits (thorough: 16), zero padded
-    let maxbits = ctx.scale(12, 16);
+    let maxbits = ctx.scale(14, 17);
     for len in 1..=maxbits {
         for v in 0..(1u64 << len) {
             let bits: Vec<bool> = (0..len).rev().map(|k| v & (1 << k) != 0).collect();
@@ -1139,7 +1139,7 @@ pub fn run(ctx: &mut Ctx) {
     }
 
     // ---- 4. reader op sequences on byte strings, plain and windowed
-    for it in 0..ctx.scale(9_000, 150_000) {
+    for it in 0..ctx.scale(90_000, 800_000) {
         let bytes = if it % 3 == 0 {
             // a stream that holds naturals, so that `n` ops succeed at every alignment
             let mut bits = vec![];
@@ -1181,18 +1181,18 @@ pub fn run(ctx: &mut Ctx) {
             do_rd(ctx, &[b], None, &ops, "close-exhaustive");
         }
     }
-    for _ in 0..ctx.scale(300, 5_000) {
+    for _ in 0..ctx.scale(3_000, 30_000) {
         let b = [if ctx.rng.bool() { 0 } else { ctx.rng.next() as u8 }, if ctx.rng.bool() { 0 } else { 1 << ctx.rng.below(8) }];
         let k = ctx.rng.below(17) as usize;
         let mut ops = vec![ROp::Bit; k];
         ops.push(ROp::Close);
         do_rd(ctx, &b, None, &ops, "close-two-bytes");
     }
-    do_rd(ctx, &[], None, &[ROp::Bit, ROp::U2, ROp::U8, ROp::Close], "empty");
-    do_rd(ctx, &[], None, &[ROp::Close], "empty");
+    do_rd(ctx, &[], None, &[ROp::Bit, ROp::U2, ROp::U8, ROp::Close], "plain-sequence");
+    do_rd(ctx, &[], None, &[ROp::Close], "plain-sequence");
 
     // ---- 5. writer op sequences, read back
-    for _ in 0..ctx.scale(6_000, 100_000) {
+    for _ in 0..ctx.scale(50_000, 400_000) {
         let k = ctx.rng.below(12);
         let mut ops = vec![];
         for _ in 0..k {
@@ -1235,7 +1235,7 @@ pub fn run(ctx: &mut Ctx) {
     // ---- 6. windows: every (start, end) of slices of 0..=3 (thorough 0..=5) bytes
     let maxlen = ctx.scale(3, 5) as usize;
     for len in 0..=maxlen {
-        let slices = if len == 0 { 1 } else { ctx.scale(14, 40) };
+        let slices = if len == 0 { 1 } else { 40 };
         for i in 0..slices {
             let sl: Vec<u8> = match i {
                 0 => vec![0xff; len],
@@ -1251,13 +1251,13 @@ pub fn run(ctx: &mut Ctx) {
     }
 
     // ---- 7. collect_bits: every bit list of up to 10 bits, random longer ones
-    for len in 0..=ctx.scale(10, 13) {
+    for len in 0..=ctx.scale(12, 15) {
         for v in 0..(1u64 << len) {
             let bits: Vec<bool> = (0..len).rev().map(|k| v & (1 << k) != 0).collect();
             do_col(ctx, &bits);
         }
     }
-    for _ in 0..ctx.scale(1_000, 20_000) {
+    for _ in 0..ctx.scale(10_000, 100_000) {
         let len = ctx.rng.below(80) as usize;
         let bits: Vec<bool> = (0..len).map(|_| ctx.rng.bool()).collect();
         do_col(ctx, &bits);
@@ -1265,7 +1265,7 @@ pub fn run(ctx: &mut Ctx) {
 
     // ---- 8. negative bounds of the signed result types: everything is above the bound
     //         (oracle only: the model's bounds are naturals)
-    for n in [1u64, 2, 100, 127, 30000] {
+    for n in (1u64..=40).chain([100, 127, 30000]) {
         let bytes = pack(&enc_nat(n as u128));
         let r = catch(|| {
             let a = BitIter::from(&bytes[..]).read_natural::<i32>(Some(-1)).is_err();
